@@ -935,8 +935,14 @@ async fn worker_world(base: &Path, wd: &Path, backend: Backend) -> Result<(World
     let digest = content_digest(&copy);
     // soundness on the private copy before anything is touched
     let o = run_reports(&w, None).await;
-    if !o.folder_fail.is_empty() || !o.file_fail.is_empty() || !o.complete || o.error.is_some() {
-        return Err(anyhow!("the untouched copy does not give a clean report: {:?}", o));
+    if !o.folder_fail.is_empty() || !o.file_fail.is_empty() {
+        // soundness half of the property (decided by the hist engine):
+        // completeness cannot be judged on an account that is already
+        // reported as corrupt
+        return Err(anyhow!("FALSE_ALARM the untouched account is reported as corrupt: {:?} {:?}", o.folder_fail.first(), o.file_fail.first()));
+    }
+    if !o.complete || o.error.is_some() {
+        return Err(anyhow!("the report on the untouched copy does not complete: {:?}", o));
     }
     Ok((w, b.targets, digest))
 }
@@ -949,6 +955,10 @@ async fn run_item(wk: &mut Worker, base: &Path, it: &Item) -> Value {
     }
     let (w, targets, digest) = match wk.worlds.get(key).unwrap() {
         Ok(x) => x,
+        Err(e) if e.starts_with("FALSE_ALARM") => {
+            return json!({"evals": 0, "nontrivial": 0, "by_region": {}, "out_of_scope": {}, "flagged_without_complete": 0, "samples": [], "t_account_us": 0, "t_file_us": 0,
+                "fails": [{"sig": format!("{}:clean_account:false_alarm", key), "count": 1, "what": e, "witness": {"engine": "integx", "backend": it.backend}}]});
+        }
         Err(e) => return json!({"error": format!("worker setup: {}", e)}),
     };
     let mut tally = Tally::default();
@@ -1112,7 +1122,7 @@ fn main() {
             }
         }
     }
-    if evals == 0 {
+    if evals == 0 && run.failures.is_empty() {
         run.machinery("vacuous: no mutation was evaluated");
     }
     let table = |m: &BTreeMap<String, BTreeMap<String, (u64, u64)>>| -> Value {
